@@ -224,6 +224,36 @@ func c03Sweep(t *testing.T, name string, fat bool) {
 			inside := sc.Main > 0 && (pi > 0 || pt.Fault.Mode == simCrashAfter)
 			sweepRecovery(st, "ROUND crash at ["+pt.Desc+"]", nextID+sc.Main, 1, inside)
 		}
+		// the same sweep with an operation that fails (applied or not) instead of a crash there: the round ends by
+		// itself, with or without a fatal error, and then the process dies (it is restarted after a fatal error, or is
+		// killed at some later moment) — recovery from whatever state a failed round leaves behind
+		errPts := simCrashPoints(simPhaseOps(res0.Ops), []simMode{simErrNoApply, simErrApplied}, 0, rnd)
+		stride := 1
+		if !vfstat.Thorough() {
+			stride = 2
+		}
+		if fat {
+			stride = 4
+		}
+		for pi := int(rnd() % uint64(stride)); pi < len(errPts); pi += stride {
+			pt := errPts[pi]
+			if pt.Fault.Class == "tilebatch" {
+				continue
+			}
+			res, st := runMain(base, []simFault{pt.Fault})
+			if res.Crashed {
+				continue
+			}
+			if len(res.Fired) == 0 {
+				rec.Add("round-error-directive-not-fired", 1)
+				continue
+			}
+			rec.Add("failed-operations-in-round", 1)
+			if res.Err != nil {
+				rec.Add("failed-operations-in-round-fatal", 1)
+			}
+			sweepRecovery(st, "ROUND failed operation at ["+pt.Desc+"], then the process died", nextID+sc.Main, 1, sc.Main > 0)
+		}
 		rec.Add("executions", int64(execs))
 	})
 }
